@@ -282,7 +282,37 @@ func checkModeOptions(r *Report, rule string, mc *modeConfig, want map[string]in
 	}
 }
 
-// checkDecoderLimits: R07.3 - the decode modes keep the library's limits.
+// library defaults of fxamacker/cbor v2.5.0 (decode.go): an explicit option
+// equal to the default changes nothing.
+var cborLimitDefaults = map[string]int64{"MaxNestedLevels": 32, "MaxArrayElements": 131072, "MaxMapPairs": 131072}
+
+// checkModeLimit: option field is unset, or satisfies ok (described by desc).
+func checkModeLimit(r *Report, rule string, mc *modeConfig, field string, ok func(v, def int64) bool, desc string) {
+	name := mc.global
+	if name == "" {
+		name = "<unnamed mode in " + shortFn(mc.fn) + ">"
+	}
+	o := r.ob(rule, name+":limit:"+field, mc.fn, mc.call, fmt.Sprintf("mode %s: %s %s", name, field, desc))
+	v, known := mc.opts[field]
+	if !known {
+		found := false
+		for i := 0; i < mc.optsType.NumFields(); i++ {
+			if mc.optsType.Field(i).Name() == field {
+				found = true
+			}
+		}
+		if !found {
+			o.ok("option does not exist in this library version", false)
+			return
+		}
+		o.fail("option " + field + " is not a compile-time constant")
+		return
+	}
+	def := cborLimitDefaults[field]
+	o.check(v == 0 || ok(v, def), fmt.Sprintf("%s = %d (0 = library default %d)", field, v, def), fmt.Sprintf("%s = %d (library default %d)", field, v, def))
+}
+
+// checkDecoderLimits: R07.3 - the decode modes do not narrow the library's limits.
 func checkDecoderLimits(r *Report, rule string) {
 	n := 0
 	for _, mc := range r.P.modeConfigs() {
@@ -290,7 +320,9 @@ func checkDecoderLimits(r *Report, rule string) {
 			continue
 		}
 		n++
-		checkModeOptions(r, rule, mc, nil, []string{"MaxNestedLevels", "MaxArrayElements", "MaxMapPairs"})
+		for _, f := range []string{"MaxNestedLevels", "MaxArrayElements", "MaxMapPairs"} {
+			checkModeLimit(r, rule, mc, f, func(v, def int64) bool { return v >= def }, "is not below the library default")
+		}
 	}
 	r.floor(rule, n, 2, "decode mode constructions")
 }
